@@ -674,10 +674,12 @@ Proof.
   - (* chain *)
     rewrite v_ctor_chain in Hc. destruct (ctor_all vs) as [cs| |] eqn:E; cbn [obind] in Hc; try discriminate.
     pose proof (ctor_all_wf vs H cs E) as Hw.
-    unfold chain_ctor in Hc. destruct cs as [|c1 r] eqn:Ecs; [discriminate|].
+    unfold chain_ctor, chain_ctor_gen in Hc. destruct cs as [|c1 r] eqn:Ecs; [discriminate|].
     destruct (c_shape c1) as [|d0 sh1] eqn:Esh; [discriminate|].
     destruct (position_of _ n) as [along|] eqn:Ep; [|discriminate].
-    destruct (shapes_similar _ along) eqn:Es; cbn [negb] in Hc; [|discriminate]. injection Hc as <-.
+    destruct (shapes_similar_checked _ along) eqn:Es'; cbn [negb] in Hc; [|discriminate]. injection Hc as <-.
+    cbn [map] in Es'. apply shapes_similar_checked_spec in Es'. destruct Es' as [Es _].
+    change (c_shape c1 :: map c_shape r) with (map c_shape (c1 :: r)) in Es.
     cbn [cwf]. rewrite all_Forall. unfold first_shape. cbn [map head_shape]. rewrite Esh.
     split; [discriminate|]. split; [inversion Hw; subst; split; assumption|]. split.
     + unfold position_of in Ep. apply index_of_Some in Ep. rewrite names_of_length in Ep. apply Ep.
